@@ -179,6 +179,8 @@ class BcWorld(World):
             sc = 0.02 if self.actor == "HyperElastic" else 1.0
             zero = rng.random() < 0.4
             op["vals"] = {"form": form, "aseed": int(rng.integers(1 << 30)), "scale": 0.0 if zero else sc}
+            if form == "array":
+                op["vals"].update(shared=bool(rng.random() < 0.3), reuse=bool(rng.random() < 0.3))
             op["dup_ok"] = bool(rng.random() < 0.5)
         elif name == "load":
             op["kind"] = ["neumann", "lineLoad", "surfLoad", "volumeLoad"][int(rng.integers(4))] if self.actor != "Beam" else "neumann"
@@ -199,6 +201,9 @@ class BcWorld(World):
                 # load levels decades apart on one object (unloading, cyclic loads): a linear solve knows no units
                 sc = float(f"{10 ** rng.uniform(-6, 6):.3e}")
             op["vals"] = {"form": ["const", "func"][int(rng.integers(2))], "aseed": int(rng.integers(1 << 30)), "scale": sc}
+            if op["kind"] == "neumann" and rng.random() < 0.4:
+                # nodal forces given node by node
+                op["vals"].update(form="array", shared=bool(rng.random() < 0.4), reuse=bool(rng.random() < 0.4))
         elif name == "backend":
             op["to"] = ["scipy", "cg", "bicg", "gmres", "lgmres"][int(rng.integers(5))]
         elif name == "lagrange":
@@ -248,8 +253,20 @@ class BcWorld(World):
                 ref[:, j] = c
             elif spec["form"] == "array":
                 a = np.round(rng.uniform(-1, 1, nodes.size) * spec["scale"], 6)
+                # a caller keeps its arrays: the same object is passed for several unknowns ([q, q]) or entered again later
+                # (load stepping, Bc_Init + re-add); the reference holds the values the caller wrote into it
+                pool = self.__dict__.setdefault("_arr_pool", {})
+                if spec.get("reuse") and nodes.size in pool:
+                    a, orig = pool[nodes.size]
+                    self.ctx.probe("caller_array_entered_again")
+                elif spec.get("shared") and j > 0:
+                    a, orig = out[0], ref[:, 0].copy()
+                    self.ctx.probe("one_array_for_several_unknowns")
+                else:
+                    orig = a.copy()
+                    pool[nodes.size] = (a, orig)
                 out.append(a)
-                ref[:, j] = a
+                ref[:, j] = orig
             else:
                 c0, c1, c2 = (float(np.round(x * spec["scale"], 6)) for x in rng.uniform(-1, 1, 3))
                 out.append(lambda x, y, z, c0=c0, c1=c1, c2=c2: c0 + c1 * x + c2 * y)
@@ -309,15 +326,27 @@ class BcWorld(World):
                 nodes = self._nodes(op["sel"])
             if nodes.size == 0:
                 return "skip"
-            vals, _ = self._values(op["vals"], nodes, len(op["unknowns"]))
+            vals, ref = self._values(op["vals"], nodes, len(op["unknowns"]))
             fn = {"neumann": "add_neumann", "lineLoad": "add_lineLoad", "surfLoad": "add_surfLoad", "volumeLoad": "add_volumeLoad"}[op["kind"]]
-            if op["kind"] == "neumann" and op["vals"]["form"] == "func":
-                pass
             try:
                 with ctx.sut():
+                    before = np.array(sim.Bc_vector_Neumann(self.pt), dtype=float) if op["kind"] == "neumann" else None
                     getattr(sim, fn)(nodes, vals, op["unknowns"])
+                    after = np.array(sim.Bc_vector_Neumann(self.pt), dtype=float) if op["kind"] == "neumann" else None
             except SutError as e:
                 raise Violation("load-raises", f"{fn} on {op['sel']} raised {e}", e.site)
+            if op["kind"] == "neumann":
+                # "the applied loads": a nodal load spreads the entered value evenly over the selected nodes (documented:
+                # force / number of nodes), node by node for arrays and functions -- what this call adds to the load vector
+                # is compared with the values the caller entered (held by the reference, not read back from the caller's array)
+                exp = np.zeros_like(before)
+                idx = [self.un.index(u) for u in op["unknowns"]]
+                for j, c in enumerate(idx):
+                    np.add.at(exp, nodes * len(self.un) + c, ref[:, j] / nodes.size)
+                sc = max(refs.maxabs(exp), 1e-300)
+                if before.shape != after.shape or not refs.maxabs((after - before) - exp) <= 1e-12 * sc + 1e-15 * refs.maxabs(before):
+                    raise Violation("applied-load-differs-from-entered-values", f"add_neumann({op['vals']['form']}{', one array for all unknowns' if op['vals'].get('shared') else ''}{', array entered before' if op['vals'].get('reuse') else ''}) added a load vector that differs from value / number of nodes by {refs.maxabs((after - before) - exp):.3e} (scale {sc:.3e})")
+                ctx.checked()
             return "ok"
 
         if name == "lagrange":
